@@ -4,6 +4,8 @@ package main
 // recorded findings.
 
 import (
+	"fmt"
+
 	. "github.com/evanw/esbuild/verifharness/hlib"
 )
 
@@ -125,8 +127,64 @@ func fixedGraphs() []*ggraph {
 		b.dyn = []int{2}
 		out = append(out, finish(&ggraph{mods: []*gmod{a, b, c}, shape: "fixed-cjs-entry", rootType: "", subType: "commonjs"}))
 	}
+	// 10-14. export-star cycles combined with a star to a CommonJS file: every member of the
+	// cycle has dynamic exports (ExportsESMWithDynamicFallback), whichever member the linker
+	// visits first; the importer reads a CommonJS-provided name through each member, as a
+	// named import and through a namespace
+	for _, v := range []struct {
+		name   string
+		cycle  int  // length of the cycle
+		cjsOn  int  // index (1-based) of the cycle member that star-exports the CommonJS file
+		before bool // the CommonJS star precedes the cycle edge in the source
+	}{
+		{"fixed-starcycle-after", 2, 1, false},
+		{"fixed-starcycle-before", 2, 1, true},
+		{"fixed-starcycle-on-second", 2, 2, false},
+		{"fixed-starcycle-3", 3, 3, false},
+		{"fixed-starcycle-3-mid", 3, 2, true},
+	} {
+		n := v.cycle
+		mods := []*gmod{esm(0, "e.mjs")}
+		for i := 1; i <= n; i++ {
+			m := esm(i, []string{"", "a.mjs", "b.mjs", "d.mjs"}[i])
+			m.locals = []localExport{{[]string{"", "ya", "yb", "yd"}[i], "var"}}
+			mods = append(mods, m)
+		}
+		c := &gmod{id: n + 1, kind: modCJS, path: "c.cjs", locals: []localExport{v2("x"), v2("w")}}
+		mods = append(mods, c)
+		for i := 1; i <= n; i++ {
+			next := i%n + 1
+			if i == v.cjsOn {
+				if v.before {
+					mods[i].stars = []int{n + 1, next}
+				} else {
+					mods[i].stars = []int{next, n + 1}
+				}
+			} else {
+				mods[i].stars = []int{next}
+			}
+		}
+		// the importer enters the cycle at the member right after cjsOn: cjsOn is then evaluated
+		// first and every other member copies the CommonJS names from an already evaluated module
+		first := v.cjsOn%n + 1
+		order := []int{first}
+		for i := 1; i <= n; i++ {
+			if i != first {
+				order = append(order, i)
+			}
+		}
+		lc := 0
+		for _, t := range order {
+			lc++
+			mods[0].imports = append(mods[0].imports,
+				gimport{t, "named", "x", fmt.Sprintf("x%d", lc)}, gimport{t, "ns", "", fmt.Sprintf("n%d", lc)}, gimport{t, "named", "w", fmt.Sprintf("w%d", lc)})
+		}
+		out = append(out, finish(&ggraph{mods: mods, shape: v.name, rootType: "module", subType: "module"}))
+	}
 	return out
 }
+
+func v2(n string) localExport { return localExport{n, "var"} }
 
 // the known finding: one binding exported under two names, re-exported to the
 // same name along two export-star paths (ECMA-262: same module and binding
@@ -177,6 +235,21 @@ func knownUnusedMissingGraph() *ggraph {
 	return finish(g)
 }
 
+// sixth known finding: the names an "export *" takes from a CommonJS file are copied at run
+// time when the re-exporting module's body runs; in an export-star cycle the member that is
+// evaluated first copies from a namespace that has not received them yet and never sees them
+func knownStaleReexportGraph() *ggraph {
+	e, a, b := esm(0, "e.mjs"), esm(1, "a.mjs"), esm(2, "b.mjs")
+	c := &gmod{id: 3, kind: modCJS, path: "c.cjs", locals: []localExport{v2("x")}}
+	a.locals = []localExport{v2("ya")}
+	b.locals = []localExport{v2("yb")}
+	a.stars = []int{2, 3}
+	b.stars = []int{1}
+	e.imports = []gimport{{1, "ns", "", "na"}, {2, "named", "x", "bx"}, {2, "ns", "", "nb"}}
+	g := &ggraph{mods: []*gmod{e, a, b, c}, shape: "known", rootType: "module", subType: "module", allowKnown: true}
+	return finish(g)
+}
+
 func knownFindings(st *Stats) {
 	plain := buildCfg{"esm", "node", false}
 	for _, k := range []struct {
@@ -185,7 +258,8 @@ func knownFindings(st *Stats) {
 		cfg      buildCfg
 	}{{knownAliasGraph(), "known-alias-two-names-star-ambiguity", plain}, {knownStarCycleGraph(), "known-star-reexport-cycle-ambiguity", plain},
 		{knownExportlessGraph(), "known-import-from-exportless-module-accepted", plain},
-		{knownUnusedMissingGraph(), "known-minify-drops-unused-missing-import", buildCfg{"esm", "node", true}}} {
+		{knownUnusedMissingGraph(), "known-minify-drops-unused-missing-import", buildCfg{"esm", "node", true}},
+		{knownStaleReexportGraph(), "known-star-cycle-commonjs-reexport-copied-too-early", plain}} {
 		desc := k.g.describe()
 		desc["scenario"] = k.scenario
 		outs := runJobs([]glueJob{{k.g.render(), "e.mjs", "e.mjs", true, []buildCfg{k.cfg}, desc, "known"}})
